@@ -424,7 +424,10 @@ impl Add<Duration> for Date {
     ///
     /// Only adds full days (`86 400` seconds) to [`Date`]. Any additional duration will be ignored.
     fn add(self, rhs: Duration) -> Self::Output {
-        let days = self.days + (rhs.as_secs() / SECS_PER_DAY_U64) as i32;
+        let days = i64::try_from(rhs.as_secs() / SECS_PER_DAY_U64)
+            .ok()
+            .and_then(|days| i32::try_from(self.days as i64 + days).ok())
+            .unwrap_or_else(|| panic!("Addition would result into an out of range date"));
         Self { days }
     }
 }
@@ -444,7 +447,10 @@ impl Sub<Duration> for Date {
     ///
     /// Only removes full days (`86 400` seconds) to [`Date`]. Any additional duration will be ignored.
     fn sub(self, rhs: Duration) -> Self::Output {
-        let days = self.days - (rhs.as_secs() / SECS_PER_DAY_U64) as i32;
+        let days = i64::try_from(rhs.as_secs() / SECS_PER_DAY_U64)
+            .ok()
+            .and_then(|days| i32::try_from(self.days as i64 - days).ok())
+            .unwrap_or_else(|| panic!("Subtraction would result into an out of range date"));
         Self { days }
     }
 }
